@@ -1,6 +1,6 @@
 ------------------------------ MODULE MC_XUnseen ------------------------------
 EXTENDS XUnseen, Json
-RelAll == {"equal", "subset", "single", "overlapping", "disjoint", "repeated", "reversed", "equalOtherMissing"}
+RelAll == {"equal", "subset", "single", "overlapping", "disjoint", "repeated", "reversed", "equalOtherMissing", "repeatedOneMissing"}
 RelEqual == {"equal"}
 RelC04 == {"equal", "reversed", "subset"}
 FamT == {"EOF", "EOFstd", "ComplexEOF", "SparsePCA", "POP", "EOFRotator1", "EOFRotator2", "EOFRotator3", "ComplexEOFRotator2",
